@@ -279,14 +279,14 @@ def write_checks(ctx, model, tmp):
     # the same path rewritten at once with another table of the same size in bytes: a read returns what the file holds now
     path = os.path.join(tmp, "again.csv")
     for rnd in range(3):
-        for a, b in (([1.5, 2.5, 3.5], [4.5, 9.5, 0.5]), ([10, 20, 30], [11, 21, 31]), ([0.25, 0.75], [0.75, 0.25])):
+        for a, b in (([1.5, 2.5, 3.5], [4.5, 9.5, 0.5]), ([10, 20, 30], [11, 21, 31]), ([0.25, 0.75], [0.75, 0.25]), ([-0.0, 1.0, 3.0], [2.0, -0.0, 5.0]), ([-0.0], [0.0])):
             got = []
             for col in (a, b):
                 EEMSWrite("W", []).execute(OutFileName=path, OutFieldNames=[eems.Producer(numpy.ma.array(col), "v", False)])
                 out = read_impl(path, "v", None, None)
                 got.append(numpy.ma.getdata(out[1]).tolist() if out[0] == "ok" else out[1])
             ctx.count("rewritten_file_reads")
-            if got != [[float(x) for x in a], [float(x) for x in b]]:
+            if repr(got) != repr([[float(x) for x in a], [float(x) for x in b]]):          # (by text: the sign of zero counts)
                 ctx.fail("a file written, read, rewritten with other values of the same length and read again: the reads return %r and %r, the file held %r then %r" % (got[0], got[1], a, b),
                          {"first": a, "second": b})
                 break
